@@ -88,14 +88,16 @@ type c10Req struct {
 	Race    string `json:"race,omitempty"` // handle: runs for about the handle timeout; queue: own timeout is about the queueing time; both outcomes allowed
 	Queued  int    `json:"queued"`         // queueing class handed to the model: 0 or the time the blockers ahead hold the workers (ms)
 	Pkg     B      `json:"pkg"`
+	Pre     int32  `json:"pre_ms,omitempty"` // sched scenarios: delay before Protocol.Invoke is entered (the goroutine is not scheduled)
 	// observations
-	Invoked int `json:"invoked"`
+	Invoked int    `json:"invoked"`
+	Events  string `json:"events,omitempty"` // sched scenarios: order of S (Invoke entered) R (Invoke returned) T (InvokeTimeout called)
 }
 
 type c10Scn struct {
 	Cfg    c10Cfg   `json:"cfg"`
 	UDP    bool     `json:"udp"`
-	Kind   string   `json:"kind"` // plain | queue
+	Kind   string   `json:"kind"` // plain | queue | race-handle | race-queue | sched (own TarsServer around a recording protocol wrapper)
 	Conns  int      `json:"conns"`
 	Chunks []int    `json:"chunks,omitempty"` // TCP write sizes (cyclic)
 	Reqs   []c10Req `json:"reqs"`
@@ -105,7 +107,8 @@ type c10Scn struct {
 	PingCalls int      `json:"ping_calls"` // calls of the servant's own tars_ping during this scenario
 	Tries     int      `json:"tries"`
 	Retried   []string `json:"retried,omitempty"` // monitor failures of earlier tries that did not reproduce
-	Err       string   `json:"err,omitempty"`     // scenario could not be run (socket errors): never a verdict
+	Err       string   `json:"err,omitempty"`     // scenario could not be run (socket errors)
+	Note      string   `json:"note,omitempty"`
 }
 
 func c10IsKnownVer(v int16) bool {
@@ -309,6 +312,9 @@ func c10Clause(cfg c10Cfg, q *c10Req) string {
 	if q.Timeout > 0 && int64(q.Queued) >= int64(q.Timeout) {
 		return "queue-timeout"
 	}
+	if cfg.HT > 0 && int(q.Pre) >= cfg.HT {
+		return "handle-timeout" // the deadline passes before Invoke is even entered
+	}
 	if q.Func == "tars_ping" {
 		return "ping"
 	}
@@ -322,6 +328,9 @@ func c10Clause(cfg c10Cfg, q *c10Req) string {
 func c10Dispatched(cfg c10Cfg, q *c10Req) bool {
 	if q.Race == "queue" {
 		return false // may or may not be: not waited for
+	}
+	if cfg.HT > 0 && int(q.Pre) >= cfg.HT {
+		return false
 	}
 	c := c10Clause(cfg, q)
 	return c != "queue-timeout" && c != "ping"
@@ -534,7 +543,8 @@ func c10CheckReq(s *c10Scn, where string, timingScn bool, q *c10Req, clause stri
 			out = append(out, c10Fail{"count/" + way + "/" + clause, fmt.Sprintf("%s: %d replies, expected %d", what, len(rs), want), timing})
 		}
 		wantInv := 0
-		if clause != "queue-timeout" && clause != "ping" && q.Func == "act" && c10IsKnownVer(q.Ver) {
+		lateInvoke := s.Cfg.HT > 0 && int(q.Pre) >= s.Cfg.HT // Invoke is entered after the deadline: it answers with the queue-timeout code itself and does not dispatch
+		if clause != "queue-timeout" && clause != "ping" && !lateInvoke && q.Func == "act" && c10IsKnownVer(q.Ver) {
 			wantInv = 1
 		}
 		if q.Invoked != wantInv {
@@ -637,6 +647,17 @@ func c10CoqRun(q *c10Req) string {
 	return fmt.Sprintf("{| h_res := %s; h_dur := %d |}", res, r.Dur)
 }
 
+func c10CoqTrace(s *c10Scn, q *c10Req) string {
+	if s.Kind != "sched" {
+		return "None"
+	}
+	var es []string
+	for _, c := range q.Events {
+		es = append(es, "E"+string(c))
+	}
+	return "(Some [" + strings.Join(es, "; ") + "])"
+}
+
 func c10Coq(s *c10Scn) string {
 	if s.Err != "" {
 		return ""
@@ -650,7 +671,7 @@ func c10Coq(s *c10Scn) string {
 				alts = append(alts, fmt.Sprintf("(%d, %d)", a.Queued, c10Script(&a).Dur))
 			}
 		}
-		rs = append(rs, fmt.Sprintf("{| k_pkg := %s; k_queued := %d; k_run := %s; k_alts := [%s]; k_counted := %s; k_invoked := %d |}", hx(q.Pkg), q.Queued, c10CoqRun(q), strings.Join(alts, "; "), coqBool(q.Func == "act" && c10IsKnownVer(q.Ver)), q.Invoked))
+		rs = append(rs, fmt.Sprintf("{| k_pkg := %s; k_queued := %d; k_run := %s; k_alts := [%s]; k_trace := %s; k_counted := %s; k_invoked := %d |}", hx(q.Pkg), q.Queued, c10CoqRun(q), strings.Join(alts, "; "), c10CoqTrace(s, q), coqBool(q.Func == "act" && c10IsKnownVer(q.Ver)), q.Invoked))
 	}
 	return fmt.Sprintf("{| k_cfg := {| c_pool := %d; c_ht := %d; c_udp := %s |}; k_reqs := [%s]; k_obs := %s |}",
 		s.Cfg.Pool, s.Cfg.HT, coqBool(s.UDP), strings.Join(rs, ";\n   "), hxB(s.Obs))
@@ -867,6 +888,37 @@ func c10GenRaceQueue(rng *rand.Rand, cfg c10Cfg, udp bool, tier string) c10Scn {
 	return s
 }
 
+// schedules of the handle-timeout race, recorded: the scenario's server is a transport.TarsServer around a wrapper of the
+// real Protocol that logs when Invoke is entered / returns and when InvokeTimeout is called, and can hold Invoke back
+// before it is entered (the goroutine is not scheduled for a while). One request per connection.
+func c10GenSched(rng *rand.Rand, cfg c10Cfg, udp bool, tier string) c10Scn {
+	s := c10Scn{Cfg: cfg, UDP: udp, Kind: "sched", Chunks: []int{4096}}
+	n := 4 + rng.Intn(3)
+	s.Conns = n
+	ids := c10DistinctIDs(rng, n)
+	for i := 0; i < n; i++ {
+		q := c10GenReq(rng, cfg, ids[i])
+		if rng.Intn(3) != 0 {
+			q.Func = "act"
+		}
+		if i < 2 {
+			q.PType = c10OneWay // every scenario has one-way requests in both overrun positions
+			q.Func = "act"
+		}
+		switch k := (i + rng.Intn(2)*3) % 3; k {
+		case 0: // the deadline passes before Invoke is entered
+			q.Pre = int32(3 * cfg.HT)
+		case 1: // the handler overruns
+			if q.Func == "act" && c10IsKnownVer(q.Ver) {
+				q.SleepMs = int32(3 * cfg.HT)
+			}
+		}
+		c10Encode(&q)
+		s.Reqs = append(s.Reqs, q)
+	}
+	return s
+}
+
 // fixed scenarios run first on every run: the witnesses of the refuted statements and of the repaired defects
 func c10Corpus() []c10Scn {
 	mk := func(cfg c10Cfg, udp bool, reqs ...c10Req) c10Scn {
@@ -889,7 +941,7 @@ func c10Corpus() []c10Scn {
 			c10Req{Ver: c10VerTars, ID: 8, Func: "act", Kind: c10KTarsErr, Code: 78, Msg: boom},
 			c10Req{Ver: c10VerJSON, ID: 9, Func: "act", Kind: c10KTarsErr, Code: 78, Msg: boom},
 			c10Req{Ver: c10VerTup, ID: 10, Func: "nosuch"}),
-		// repaired ea2b91c: one-way request whose handler overruns the handle timeout; repaired be28e55: the
+		// repaired 535b05c: one-way request whose handler overruns the handle timeout; repaired be28e55: the
 		// handle-timeout reply of a TUP / JSON request keeps version and packet type
 		mk(c10Cfg{0, 250}, false,
 			c10Req{Ver: c10VerTup, PType: c10OneWay, ID: 1, Func: "act", SleepMs: 750},
@@ -919,9 +971,9 @@ func c10Configs(tier string) []c10Cfg {
 
 func c10Gen(tier string, rng *rand.Rand) []c10Scn {
 	var out []c10Scn
-	nt, nu, nq, nr := 12, 6, 4, 2
+	nt, nu, nq, nr, ns := 12, 6, 4, 2, 2
 	if tier == "thorough" {
-		nt, nu, nq, nr = 90, 36, 12, 8
+		nt, nu, nq, nr, ns = 90, 36, 12, 8, 8
 	}
 	for _, cfg := range c10Configs(tier) {
 		for i := 0; i < nt; i++ {
@@ -942,6 +994,9 @@ func c10Gen(tier string, rng *rand.Rand) []c10Scn {
 			for i := 0; i < nr; i++ {
 				out = append(out, c10GenRaceHandle(rng, cfg, i%2 == 1, tier))
 			}
+			for i := 0; i < ns; i++ {
+				out = append(out, c10GenSched(rng, cfg, i%2 == 1, tier))
+			}
 		}
 	}
 	return out
@@ -950,18 +1005,23 @@ func c10Gen(tier string, rng *rand.Rand) []c10Scn {
 // ---------- running: one child process per configuration ----------
 func c10RunAll(dir string) func(cs []c10Scn) [][]Failure {
 	return func(cs []c10Scn) [][]Failure {
-		groups := map[c10Cfg][]int{}
-		var order []c10Cfg
+		type gkey struct {
+			Cfg   c10Cfg
+			Sched bool
+		}
+		groups := map[gkey][]int{}
+		var order []gkey
 		for i := range cs {
-			if _, ok := groups[cs[i].Cfg]; !ok {
-				order = append(order, cs[i].Cfg)
+			k := gkey{cs[i].Cfg, cs[i].Kind == "sched"}
+			if _, ok := groups[k]; !ok {
+				order = append(order, k)
 			}
-			groups[cs[i].Cfg] = append(groups[cs[i].Cfg], i)
+			groups[k] = append(groups[k], i)
 		}
 		fails := make([][]Failure, len(cs))
 		var wg sync.WaitGroup
 		sem := make(chan struct{}, 6)
-		for gi, cfg := range order {
+		for gi, key := range order {
 			wg.Add(1)
 			go func(gi int, cfg c10Cfg, idx []int) {
 				defer wg.Done()
@@ -986,7 +1046,7 @@ func c10RunAll(dir string) func(cs []c10Scn) [][]Failure {
 					}
 					fails[idx[k]] = append(fails[idx[k]], Failure{Sig: "server/died", Desc: fmt.Sprintf("the server process for pool=%d handletimeout=%dms ended while serving well-formed requests: %s", cfg.Pool, cfg.HT, died)})
 				}
-			}(gi, cfg, groups[cfg])
+			}(gi, key.Cfg, groups[key])
 		}
 		wg.Wait()
 		for i := range cs {
